@@ -155,11 +155,50 @@ def structured_update(rng, cfg):
     return struct.pack("!H", 0) + struct.pack("!H", len(attrs)) + attrs
 
 
+def structured_open(rng, cfg):
+    """OPEN whose capabilities are structurally valid TLVs with arbitrary / unusual contents."""
+    caps = []
+    for _ in range(rng.randrange(1, 6)):
+        code = rng.pick([1, 2, 5, 64, 65, 67, 69, 69, 70, 71, 71, 73, 128, 131, 0, 255, rng.randrange(256)])
+        if code == 69:      # ADD-PATH: <AFI, SAFI, send/receive> entries, known and unknown families
+            val = b"".join(struct.pack("!HBB", rng.pick([1, 2, 25, 16388, 3, 0]), rng.pick([1, 2, 4, 128, 133, 70, 71, 0]),
+                                       rng.pick([0, 1, 2, 3, 4])) for _ in range(rng.randrange(0, 4)))
+            if rng.chance(0.2):
+                val += rand_bytes(rng, rng.randrange(1, 4))
+        elif code == 71:    # LLGR: <AFI, SAFI, flags, 24-bit time>
+            val = b"".join(struct.pack("!HBB", rng.pick([1, 2]), rng.pick([1, 128]), rng.randrange(256)) + rand_bytes(rng, 3)
+                           for _ in range(rng.randrange(0, 3))) + rand_bytes(rng, rng.pick([0, 0, 1, 6]))
+        elif code == 5:     # extended next hop: <AFI, SAFI(2), next-hop AFI> 6-octet entries
+            val = b"".join(struct.pack("!HHH", rng.pick([1, 2]), rng.pick([1, 128, 4]), rng.pick([1, 2]))
+                           for _ in range(rng.randrange(0, 3))) + rand_bytes(rng, rng.pick([0, 0, 1, 5]))
+        elif code == 1:
+            val = rng.pick([struct.pack("!HBB", rng.pick([1, 2, 25, 9999]), 0, rng.pick([1, 128, 70, 250])), rand_bytes(rng, rng.randrange(0, 7))])
+        elif code == 65:
+            val = rng.pick([struct.pack("!I", cfg["remote_as"]), rand_bytes(rng, rng.randrange(0, 6))])
+        elif code == 64:
+            val = struct.pack("!H", rng.randrange(65536)) + b"".join(struct.pack("!HBB", 1, 1, 0x80) for _ in range(rng.randrange(0, 3)))
+        else:
+            val = rand_bytes(rng, rng.pick([0, 0, 1, 2, 4, 8, 40]))
+        caps.append((code, val[:250]))
+    asn = cfg["remote_as"]
+    field = asn if asn <= 65535 else 23456
+    opt = rp.encode_caps(caps, one_param_each=rng.chance(0.5))
+    if rng.chance(0.1):
+        opt = bytes([rng.pick([1, 3, 255]), 2, 0, 0]) + opt       # a non-capability optional parameter
+    body = struct.pack("!BHH", 4, field, rng.pick([0, 3, 90, 180])) + bytes([2, 2, 2, 2]) + bytes([len(opt) & 0xFF]) + opt
+    return body
+
+
 def one_hostile_frame(rng, cfg):
     """One frame for the burst; usually well-framed (correct header) with a hostile body."""
     r = rng.random()
     as4 = True
-    if r < 0.3:
+    if r < 0.08:
+        mtype = rp.OPEN
+        body = structured_open(rng, cfg)
+        if rng.chance(0.15):
+            body = mutate(rng, body)
+    elif r < 0.3:
         mtype = rp.UPDATE
         body = structured_update(rng, cfg)
         if rng.chance(0.2):
@@ -435,6 +474,9 @@ class HostileCtx(object):
                 if c.state == "connected" and not c.closing():
                     raise Violation("C10", "end-state", "idle-with-open-connection",
                                     "agent is IDLE but connection #%d is still open and not being closed" % c.cid)
+            late = bool(cfg.get("late_close")) and any(c.closing() for c in w.live_conns())
+            if late and self.late_close_end(w, cfg, state, kinds, escapes):
+                return
             while any(c.closing() for c in w.live_conns()):
                 w.apply(["cdone", 0])
             t0 = w.now()
@@ -463,6 +505,74 @@ def wc_state_after(s):
     return s
 
 
+def _late_close_end(self, w, cfg, state, kinds, escapes):
+    """The peer does not read, so the agent's close of the old connection stays pending; the agent
+    reconnects after idle_hold_time and a new session is established; only then is the old
+    connection's loss delivered.  The new session must not suffer (no collateral damage)."""
+    self.stats["late_close_variants"] += 1
+    old = [c for c in w.live_conns() if c.closing()][0]
+    guard = 0
+    while not any(c.state == "connecting" for c in w.live_conns()) and guard < 30:
+        nt = w.reactor.next_time()
+        if nt is None or nt > w.now() + cfg["idle_hold_time"] + 1e-6:
+            break
+        pos = len(w.log)
+        w.apply(["fire", 0])
+        escapes(pos, "timer-after-burst")
+        guard += 1
+    pend = [k for k, c in enumerate(w.live_conns()) if c.state == "connecting"]
+    if not pend:
+        # the agent waits for its close to complete before it schedules the reconnect (allowed: the
+        # reconnect is due idle_hold_time after the close has completed) -> ordinary end-state check
+        self.stats["late_close_variant_not_applicable"] += 1
+        return False
+    w.apply(["conn_ok", pend[0]])
+    k = len(w.live_conns()) - 1
+    w.apply(["send", k, cfg["peer_open"], []])
+    w.apply(["send", k, rp.encode_keepalive().hex(), []])
+    drain_now(w)
+    if w.state() != "ESTABLISHED":
+        self.account(w)
+        return True     # (not this oracle's business; C01/C02 judge re-establishment)
+    new_cid = w.live_conns()[-1].cid
+    n_conns = len(w.conns)
+    # now the old connection finally goes away
+    ko = [i for i, c in enumerate(w.live_conns()) if c.cid == old.cid]
+    pos = len(w.log)
+    if ko:
+        w.apply(["cdone", ko[0]])
+    drain_now(w)
+    escapes(pos, "late-close")
+    guard = 0
+    # (the harness sends nothing more: stay inside the new session's hold time)
+    try:
+        ph = rp.decode_open(rp.deframe(bytes.fromhex(cfg["peer_open"]))[0][0].body).hold
+    except Exception:
+        ph = 0
+    H = min(cfg["hold_time"], ph)
+    t_end = w.now() + min(cfg["idle_hold_time"] + 1.0, (H - 0.5) if H > 0 else 1e9)
+    while guard < 30:
+        nt = w.reactor.next_time()
+        if nt is None or nt > t_end:
+            break
+        pos = len(w.log)
+        w.apply(["fire", 0])
+        escapes(pos, "timer-after-late-close")
+        guard += 1
+        if w.state() != "ESTABLISHED" or len(w.conns) != n_conns:
+            break
+    c = w.conns[new_cid]
+    if w.state() != "ESTABLISHED" or not c.readable() or len(w.conns) != n_conns:
+        raise Violation("C10", "collateral", "late-close-of-old-connection-hurt-new-session",
+                        "the close of the connection that received the hostile input completed only after the next session "
+                        "(connection #%d) was Established; afterwards: state %s, connection #%d %s, %d connect attempts since"
+                        % (new_cid, w.state(), new_cid, "open" if c.readable() else "closed/closing", len(w.conns) - n_conns))
+    self.stats["late_close_survived"] += 1
+    self.account(w)
+    return True
+
+
+
 def dict_get(canon_dict, key):
     if isinstance(canon_dict, dict) and "__d" in canon_dict:
         for k, v in canon_dict["__d"]:
@@ -483,6 +593,9 @@ def agent_as4(cfg):
     return bool(cfg["four_bytes_as"]) or cfg["local_as"] > 65535
 
 
+HostileCtx.late_close_end = _late_close_end
+
+
 class HostileProfile(BaseProfile):
     id = "C10"
     runs = {"quick": 40000, "thorough": 2000000}
@@ -491,7 +604,7 @@ class HostileProfile(BaseProfile):
             "duplicated attributes / absurd length fields; occasionally a wrong header length) in OpenSent/OpenConfirm/"
             "Established, frame-per-chunk (75 %) or coalesced, then 1-3 known-good messages whose handler payloads are "
             "compared with a control run; non-trivial = prefix reached the state; distinct = distinct (state, frame kinds)")
-    probes = ["hostile_frame:UPDATE", "hostile_frame:OPEN", "hostile_frame:NOTIFICATION", "hostile_frame:ROUTE-REFRESH",
+    probes = ["late_close_variants", "late_close_survived", "hostile_frame:UPDATE", "hostile_frame:OPEN", "hostile_frame:NOTIFICATION", "hostile_frame:ROUTE-REFRESH",
               "hostile_frame:KEEPALIVE", "hostile_frame:bad_length", "malformed_update_reports",
               "update_frames_in_established", "tail_compared", "reconnect_after_close", "coalesced_bursts"]
 
@@ -502,6 +615,7 @@ class HostileProfile(BaseProfile):
         if rng.chance(0.3):
             cfg["afi_safi"] = rng.pick([["ipv4"], ["ipv4", "ipv6"], ["ipv4", "flowspec", "ipv4_lu"], ["ipv4", "bgpls", "evpn"]])
         cfg["rib"] = rng.chance(0.3)
+        cfg["late_close"] = rng.chance(0.3)
         return cfg
 
     def new_ctx(self, cfg, tier):
